@@ -18,16 +18,24 @@ type proposalResult struct {
 	err  error
 }
 
+// proposalKey identifies a waiter: raft terms (and therefore the request ids
+// derived from them) are only unique within one raft group, while the pipeline
+// serves every region of the store.
+type proposalKey struct {
+	region uint64
+	id     uint64
+}
+
 type commandPipeline struct {
 	mu        sync.Mutex
 	seq       uint64
-	proposals map[uint64]*commandProposal
+	proposals map[proposalKey]*commandProposal
 	applier   func(*pb.RaftCmdRequest) (*pb.RaftCmdResponse, error)
 }
 
 func newCommandPipeline(applier func(*pb.RaftCmdRequest) (*pb.RaftCmdResponse, error)) *commandPipeline {
 	return &commandPipeline{
-		proposals: make(map[uint64]*commandProposal),
+		proposals: make(map[proposalKey]*commandProposal),
 		applier:   applier,
 	}
 }
@@ -37,8 +45,8 @@ func newCommandPipeline(applier func(*pb.RaftCmdRequest) (*pb.RaftCmdResponse, e
 // which the caller observed this store as leader (a term has at most one
 // leader, and a restarted store has to win a new term before it proposes
 // again), the low 32 bits the local counter. Applied entries are matched to
-// local waiters by this id alone, so it must not collide with the id of an
-// entry proposed elsewhere.
+// local waiters by (region id, request id), so within a region the id must
+// not collide with the id of an entry proposed elsewhere.
 func (cp *commandPipeline) nextProposalID(term uint64) uint64 {
 	if cp == nil {
 		return 0
@@ -50,35 +58,49 @@ func (cp *commandPipeline) nextProposalID(term uint64) uint64 {
 }
 
 func (cp *commandPipeline) registerProposal(id uint64) (*commandProposal, error) {
+	return cp.registerRegionProposal(0, id)
+}
+
+func (cp *commandPipeline) registerRegionProposal(region, id uint64) (*commandProposal, error) {
 	if cp == nil || id == 0 {
 		return nil, nil
 	}
+	key := proposalKey{region: region, id: id}
 	cp.mu.Lock()
 	defer cp.mu.Unlock()
-	if _, exists := cp.proposals[id]; exists {
+	if _, exists := cp.proposals[key]; exists {
 		return nil, fmt.Errorf("commandPipeline: duplicate proposal id %d", id)
 	}
 	prop := &commandProposal{ch: make(chan proposalResult, 1)}
-	cp.proposals[id] = prop
+	cp.proposals[key] = prop
 	return prop, nil
 }
 
 func (cp *commandPipeline) removeProposal(id uint64) {
+	cp.removeRegionProposal(0, id)
+}
+
+func (cp *commandPipeline) removeRegionProposal(region, id uint64) {
 	if cp == nil || id == 0 {
 		return
 	}
 	cp.mu.Lock()
-	delete(cp.proposals, id)
+	delete(cp.proposals, proposalKey{region: region, id: id})
 	cp.mu.Unlock()
 }
 
 func (cp *commandPipeline) completeProposal(id uint64, resp *pb.RaftCmdResponse, err error) {
+	cp.completeRegionProposal(0, id, resp, err)
+}
+
+func (cp *commandPipeline) completeRegionProposal(region, id uint64, resp *pb.RaftCmdResponse, err error) {
 	if cp == nil || id == 0 {
 		return
 	}
+	key := proposalKey{region: region, id: id}
 	cp.mu.Lock()
-	prop := cp.proposals[id]
-	delete(cp.proposals, id)
+	prop := cp.proposals[key]
+	delete(cp.proposals, key)
 	cp.mu.Unlock()
 	if prop == nil {
 		return
@@ -110,12 +132,12 @@ func (cp *commandPipeline) applyEntries(entries []myraft.Entry) error {
 		}
 		resp, applyErr := cp.applier(req)
 		verifObserveApply(cp, entry, req, resp, applyErr)
+		regionID, requestID := req.GetHeader().GetRegionId(), req.GetHeader().GetRequestId()
 		if applyErr != nil {
-			requestID := req.GetHeader().GetRequestId()
-			cp.completeProposal(requestID, nil, applyErr)
+			cp.completeRegionProposal(regionID, requestID, nil, applyErr)
 			return fmt.Errorf("commandPipeline: apply request %d failed: %w", requestID, applyErr)
 		}
-		cp.completeProposal(req.GetHeader().GetRequestId(), resp, nil)
+		cp.completeRegionProposal(regionID, requestID, resp, nil)
 	}
 	return nil
 }
